@@ -6,7 +6,6 @@ import (
 	"encoding/hex"
 	"fmt"
 	"io"
-	"log"
 
 	"github.com/libsv/go-bk/crypto"
 
@@ -327,18 +326,42 @@ func (tx *Tx) BytesWithClearedInputs(index int, lockingScript []byte) []byte {
 
 // Clone returns a clone of the tx
 func (tx *Tx) Clone() *Tx {
-	// Ignore err as byte slice passed in is created from valid tx
-	clone, err := NewTxFromBytes(tx.Bytes())
-	if err != nil {
-		log.Fatal(err)
+	clone := &Tx{
+		Version:  tx.Version,
+		LockTime: tx.LockTime,
+		Inputs:   make([]*Input, 0, len(tx.Inputs)),
+		Outputs:  make([]*Output, 0, len(tx.Outputs)),
 	}
 
-	for i, input := range tx.Inputs {
-		clone.Inputs[i].PreviousTxSatoshis = input.PreviousTxSatoshis
-		clone.Inputs[i].PreviousTxScript = input.PreviousTxScript
+	for _, input := range tx.Inputs {
+		clone.Inputs = append(clone.Inputs, &Input{
+			previousTxID:       append([]byte(nil), input.previousTxID...),
+			PreviousTxSatoshis: input.PreviousTxSatoshis,
+			PreviousTxScript:   input.PreviousTxScript,
+			UnlockingScript:    cloneScript(input.UnlockingScript),
+			PreviousTxOutIndex: input.PreviousTxOutIndex,
+			SequenceNumber:     input.SequenceNumber,
+		})
+	}
+
+	for _, output := range tx.Outputs {
+		clone.Outputs = append(clone.Outputs, &Output{
+			Satoshis:      output.Satoshis,
+			LockingScript: cloneScript(output.LockingScript),
+		})
 	}
 
 	return clone
+}
+
+// cloneScript returns a copy of the script bytes. A nil script becomes an empty
+// one, which is what it serialises to.
+func cloneScript(s *bscript.Script) *bscript.Script {
+	c := bscript.Script{}
+	if s != nil {
+		c = append(c, *s...)
+	}
+	return &c
 }
 
 // NodeJSON returns a wrapped *bt.Tx for marshalling/unmarshalling into a node tx format.
